@@ -225,6 +225,12 @@ def run(run, model):
                 ok, detail, node = ck.gate(ev, set(), user_value=True)
                 run.check(ok, "C09.raise-site", "%s:%s" % (ck.fi.qual, kind), "the wrapper raises the very value the helper returned", detail, ck.loc(node), None, first_line(node.stmt))
     run.do(gates.c08_place, model, "C09.old-for-error")
+    from . import loops
+    for role, ck in gates.checkers(model).items():
+        for kind, depth in (("PRE", 2), ("POST", 1)):
+            h = loops.helper_of(model, ck, kind)
+            if h is not None:
+                run.do(loops.verdict_rule, model, "C09.error-of-failed", h[0], h[1], h[2], depth)
     from . import fwd
     run.do(fwd.forwarding, model, "C09.error-forwarded", ("error",))
     run.minimum("C09.dispatch", 9, "7 kinds, factories split by result")
